@@ -77,21 +77,17 @@ def c08_nontrivial(case, v):
 
 def c08_extra(cases, verdicts):
     from collections import Counter
-    phases, kinds, out_hyp, not_full = Counter(), Counter(), 0, Counter()
+    phases, kinds, later_better = Counter(), Counter(), 0
     for c in cases:
         kind = c.get("k") if c.get("k") != "solve" else "solve/" + str(c.get("pop"))
         kinds[kind] += 1
-        if c.get("in_hyp") is False:
-            out_hyp += 1
+        if c.get("later_better") is True:
+            later_better += 1
         if c.get("k") == "rosomaxa" and isinstance(c.get("impl"), list):
             for o in c["impl"]:
                 phases[o["phase"]] += 1
-        v = verdicts.get(c.get("id")) or {}
-        if (v.get("info") or {}).get("full_property_holds") is False:
-            not_full[kind] += 1
     return {"populations": dict(kinds), "rosomaxa_observations_per_phase": {str(k): v for k, v in phases.items()},
-            "greedy_cases_generated_with_a_skipped_better_batch_element": out_hyp,
-            "cases_where_the_real_code_misses_the_full_property_but_meets_the_weaker_proved_one": dict(not_full)}
+            "greedy_cases_with_a_better_element_after_the_first_improving_one_of_a_batch": later_better}
 
 
 PROP = dict(
@@ -119,12 +115,11 @@ PROP = dict(
                  "valid configurations: max_population_size >= 1 (asserted by Elitism::new), Rosomaxa elite/node size >= 1, "
                  "selection_size >= 2, initial_size >= 4 (a smaller one makes Network::new fail: `expect(\"cannot create "
                  "network\")`), rebalance_memory >= 1, spread/distribution factor in (0,1)",
-                 "Greedy::add_all of /repo stops looking at a batch after the first improving element (`acc || self.add(..)`): "
-                 "the model has it (Greedy.repoShortCircuits); for Greedy the oracle accepts a trace that meets the full "
-                 "specification or, failing that, the proved weaker one (only the considered prefix of a batch counts as "
-                 "offered) and the evidence counts the latter; theorem greedy_short_circuit_add_all_loses_best is the counter-witness, "
-                 "corpus/C08/greedy_batch_skips_better.jsonl replays it on the real code. After a repair of greedy.rs set "
-                 "Greedy.repoShortCircuits := false (the correspondence run then demands the full property for Greedy too)"],
+                 "Greedy::add_all hands every element of a batch to add (repair S35 of the short-circuiting "
+                 "`acc || self.add(..)`); the oracle demands the full specification for Greedy too (best known <= every "
+                 "element of every batch), corpus/C08/greedy_batch_skips_better.jsonl and the labelled generated cases "
+                 "(later_better) are the inputs on which the old fold fails, mutants/C08-n-greedy-short-circuit.patch "
+                 "reintroduces it"],
 )
 
 META = dict(
@@ -135,8 +130,8 @@ META = dict(
          "of offered individuals; ticks and selections do not change it; add/add_all return true exactly when the best known "
          "strictly improved or appeared; select returns offered individuals, something whenever the population is non-empty, the "
          "best first; phases only move forward; a run seeded with initial solutions never ends with a worse first individual. "
-         "Greedy: the same for a fold that looks at every element; for the fold of /repo (short-circuiting ||) the theorem holds "
-         "for the considered prefix of each batch and a kernel-checked witness shows the loss. Tie: differential run of the real "
+         "Greedy (add_all hands every element to add): the same; for the short-circuiting fold /repo had before repair S35 a "
+         "kernel-checked witness shows the loss that the oracle rejects. Tie: differential run of the real "
          "Greedy/Elitism/Rosomaxa (public HeuristicPopulation trait) against the model after every operation, the specification "
          "evaluated on the implementation's own observations, and whole runs of the real evolution loop replayed through the model.",
     note=COMMON_NOTE + " Out of model: GSOM node populations (C19), which individuals the random generator picks in select().",
